@@ -12,7 +12,8 @@ import time
 
 ROOT = os.path.dirname(os.path.dirname(os.path.abspath(__file__)))
 REPO = os.environ.get("VERIF_REPO", "/repo")
-COQ = os.path.join(ROOT, "coq")
+COQ = os.environ.get("VERIF_COQ", os.path.join(ROOT, "coq"))   # overridable: scratch copy for runs against scratch worktrees
+MAPS_REPORT = os.path.join(COQ, ".maps2coq_report.json")
 PY = "/venv/bin/python"
 NPROC = os.cpu_count() or 4
 # evidence directory (overridable so that runs against scratch worktrees never clobber the committed evidence)
@@ -59,8 +60,7 @@ def regenerate(log):
     """translator: maps.py -> GatesGen.v ; spec -> GateSpecGen.v (both on every run)"""
     gen = os.path.join(COQ, "Gates", "GatesGen.v")
     tmp = gen + ".tmp"
-    rep = os.path.join(ROOT, ".cache", "maps2coq_report.json")
-    os.makedirs(os.path.dirname(rep), exist_ok=True)
+    rep = MAPS_REPORT
     p = subprocess.run([PY, os.path.join(ROOT, "translator", "maps2coq.py"),
                         os.path.join(REPO, "src", "pyqasm", "maps.py"), tmp, rep],
                        capture_output=True, text=True)
@@ -90,7 +90,7 @@ def build(targets, fresh=(), timeout=1500):
     unconditionally so that their Print Assumptions output is captured."""
     res = BuildResult()
     os.makedirs(os.path.join(ROOT, ".run"), exist_ok=True)
-    lock = open(os.path.join(ROOT, ".build.lock"), "w")
+    lock = open(os.path.join(COQ, ".build.lock"), "w")
     fcntl.flock(lock, fcntl.LOCK_EX)
     try:
         log = []
